@@ -110,7 +110,7 @@ def oracle(case: dict[str, Any], weights: np.ndarray, failed: np.ndarray, bad: n
         for i, j in itertools.combinations(range(m), 2):
             hi, lo = (i, j) if b[i] > b[j] else (j, i)
             if abs(b[i] - b[j]) > 1e-9 * scale:
-                check(w_succ[hi] >= w_succ[lo] - 0.0, "direction",
+                check(w_succ[hi] >= w_succ[lo] - TOL, "direction",
                       f"worse realization has smaller weight: bad={b.tolist()} w={w_succ.tolist()}", case)
         del order
 
